@@ -94,6 +94,12 @@ def run(seed_id, props):
     assert o.strip() == "", "/repo is not clean: " + o
     rc, o = sh("git -C /repo apply %s" % os.path.join(d, "patch.diff"))
     assert rc == 0, "patch does not apply to /repo: " + o
+    # evidence and replays written while /repo is modified must not survive
+    ev_bak = os.path.join(ROOT, "run", "evidence_backup")
+    shutil.rmtree(ev_bak, ignore_errors=True)
+    shutil.copytree(os.path.join(ROOT, "evidence"), ev_bak)
+    rp = os.path.join(ROOT, "replays")
+    had = set(os.listdir(rp)) if os.path.isdir(rp) else set()
     try:
         for p in props:
             t0 = time.time()
@@ -104,6 +110,13 @@ def run(seed_id, props):
             meta["check_runs"].append({"check": "quick " + p, "exit": rc, "detected": rc == 1, "wall_s": round(time.time() - t0, 1), "output": lines[:6]})
     finally:
         sh("git -C /repo checkout -- .")
+        shutil.rmtree(os.path.join(ROOT, "evidence"), ignore_errors=True)
+        shutil.copytree(ev_bak, os.path.join(ROOT, "evidence"))
+        if os.path.isdir(rp):
+            keep = os.path.join(d, "replays")
+            os.makedirs(keep, exist_ok=True)
+            for f in set(os.listdir(rp)) - had:
+                shutil.move(os.path.join(rp, f), os.path.join(keep, f))
         json.dump(meta, open(os.path.join(d, "meta.json"), "w"), indent=1)
     return 0
 
